@@ -13,45 +13,58 @@ LEVEL = "exploration"
 WORKERS = {"quick": 8, "thorough": 16}
 BUDGET_S = {"quick": 50, "thorough": 650}
 RULE = (
-    "Hypothesis draws a target T (nested tree over a small content pool, isexec flags, explicit empty "
-    "directories), a target form (explicit file entries + an explicit directory entry for every parent; "
-    ".dir objects loaded lazily at drawn directory nodes incl. the root; implicit parents, only with "
-    "links=[copy] and delete on), a prior workspace = T after drawn edits (modify, delete, add nested file / empty "
-    "nested directories, file->directory and directory->file replacement at any depth, remove subtree, "
-    "chmod, wipe; dangling symlinks and symlinks to files outside the workspace, at new paths, in place of "
-    "a target file or of a target directory with or without a hash), materialised as plain files or through a first index checkout with the same link "
-    "type, link list (copy, hardlink, symlink, reflink+copy, hardlink+copy, symlink+copy; passed to "
-    "apply or configured on the cache), cache class, delete on/off, relink, update_meta, state on/off, "
-    "0-2 further cache storages registered at drawn target keys (a file's own key or a directory key; each "
-    "object lives only in the store its key resolves to), and cache objects removed (source unavailable; not "
-    "combined with further storages; optionally a non-raising index.onerror collector; after the judged "
-    "round the objects are restored and compare/apply is retried with the SAME target index object, which "
-    "must then converge completely). old = DataIndex of build_entries(compute_hash=True) "
-    "over the workspace, or (first compare only, drawn) index.build.build() without hashes. Oracle: os.walk of the workspace vs the flat model of T (files, bytes read "
-    "through links, directories, x bits), a second compare(fresh old, freshly constructed target) with "
-    "empty files_create/files_delete/dirs_create/dirs_delete, survival of prior files outside T when "
-    "delete is off, every unavailable source reported to the error callback. Non-trivial = prior "
-    "non-empty and != T, holding a path T lacks (something to delete) and (a file<->directory kind "
-    "change or a directory to remove that contains a directory); distinct = SHA-1 of the case JSON."
+    "Hypothesis draws a target T (nested tree over a small content pool, also deep chains of directories "
+    "that hold only directories; isexec flags, explicit empty directories), a target form (explicit: a "
+    "directory entry for every parent; implicit: file entries only, no entry for any parent, or mixed with "
+    "a drawn subset of the parents explicit; lazy: .dir objects loaded lazily at drawn directory nodes incl. "
+    "the root, the parents around them explicit or implicit), a prior workspace = T after drawn edits "
+    "(modify, delete, add nested file / empty nested directories, file->directory and directory->file "
+    "replacement at any depth, remove subtree, chmod, wipe; dangling symlinks and symlinks to files outside "
+    "the workspace at new paths or in place of any target file or directory), materialised as plain files or "
+    "through a first index checkout with the same link type; every form with every link list (copy, "
+    "hardlink, symlink, reflink+copy, hardlink+copy, symlink+copy; passed to apply or configured on the "
+    "cache), delete on/off, old=None for an empty workspace; cache class, relink, update_meta, state on/off, "
+    "0-2 further cache storages registered at drawn target keys (each object lives only in the store its key "
+    "resolves to), cache objects removed (source unavailable; not combined with further storages; optionally "
+    "a non-raising index.onerror collector; afterwards the objects are restored and compare/apply is retried "
+    "with the SAME target index object, which must converge completely). old = DataIndex of "
+    "build_entries(compute_hash=True) over the workspace, optionally with .dir hashes on the directory "
+    "entries that the target gives as .dir objects, or (first compare only) index.build.build() without "
+    "hashes. Oracle: os.walk of the workspace vs the flat model of T (files, bytes read through links, "
+    "directories, x bits), a second compare(fresh old, freshly constructed target) with empty "
+    "files_create/files_delete/dirs_create/dirs_delete (implicit directories included), survival of prior "
+    "files and directories outside T when delete is off, every unavailable source reported to the error "
+    "callback, and (delete off) every target entry below a prior file that occupies the place of a directory "
+    "the index has no entry for reported to the error callback. Non-trivial = prior non-empty and != T, "
+    "holding a path T lacks (something to delete) and (a file<->directory kind change or a directory to "
+    "remove that contains a directory); distinct = SHA-1 of the case JSON."
 )
 ASSUMPTIONS = [
-    "the target carries an explicit directory entry for every parent (what DVC's loader produces); implicit "
-    "parents are only exercised with links=[copy] and delete on, and directories the index has no entry for "
-    "are ignored in the second compare's dirs_delete",
     "the old index is the workspace built with hashes (build_entries(compute_hash=True)); in the old_hashes=False "
     "arm the first compare gets the hash-less index.build.build() index (every file compares as modified and is "
     "re-created), the second compare always uses hashes",
     "the second compare uses a freshly constructed target (apply(update_meta=True) mutates the one it got)",
+    "a directory the index has no entry for is required to exist only through the files/directories below it",
     "unavailable sources are exercised with link lists that do not start with symlink (a symlink to a missing "
     "object is created dangling without an error)",
-    "when a source is unavailable and apply() raises FileNotFoundError after having called the error callback "
-    "(it stats the destination again for update_meta=True and for the chmod of an isexec entry), only the "
-    "reporting clause is judged for that case: the statement promises the report, nothing about what follows",
-    "nothing is asserted inside the subtree of an entry whose source is unavailable, nor (delete off) below "
-    "a target file whose path is occupied by a non-empty prior directory",
+    "outside the statement (inputs are still generated): after the callback was called for an unavailable "
+    "source, apply() may let the FileNotFoundError of re-statting that destination escape from "
+    "_create_files/_chmod_files (update_meta, state, chmod of an isexec entry); only the reports made up to "
+    "then are judged for that case",
+    "outside the statement (inputs are still generated): delete off and a prior non-directory (file, dangling "
+    "link) sits where the target needs a directory that has no entry of its own - nothing tells apply to remove "
+    "it, the sources are available, so none of the three clauses applies to what lies below it. Both outcomes "
+    "are accepted: every entry below it placed or reported to the callback, or NotADirectoryError / "
+    "FileExistsError / FileNotFoundError escaping from apply() out of _create_dirs/_create_files/_chmod_files (a "
+    "loud failure); after such an escape only clause (2) is judged (nothing outside the target removed or "
+    "altered); a normal return that leaves such an entry neither placed nor reported is a violation. With "
+    "delete on, and for every other exception, the exc: rule applies",
+    "nothing is asserted inside the subtree of an entry whose source is unavailable, nor (delete off) below a "
+    "target file whose path is occupied by a non-empty prior directory, nor (delete off) below a prior file that "
+    "occupies the place of a directory the index has no entry for - there only the error reports are asserted",
     "odd prior entries are dangling symlinks (documented in safe_walk/build_entries) and symlinks to outside "
-    "files, placed anywhere (new paths, target files, target directories with or without a hash); symlinks to "
-    "directories are not generated: the quantifier is over trees of files and directories",
+    "files, placed anywhere; symlinks to directories are not generated: the quantifier is over trees of files "
+    "and directories",
     "files inside lazily loaded .dir objects carry no isexec flag and such objects hold no empty directories",
 ]
 
@@ -246,22 +259,26 @@ _WIDTH = [st.sampled_from(w) for w in ([1, 2, 2, 3, 3, 4], [1, 1, 2, 2, 3], [1, 
 NEST = st.sampled_from([True, False, False])
 
 
+NEST_DEEP = st.sampled_from([True, True, False])
+
+
 @st.composite
-def _tree(draw, depth=0):
+def _tree(draw, depth=0, nest=NEST):
     """Nested name -> content | subtree, nesting more often than gen.trees (depth <= 4)."""
     out = {}
     for _ in range(draw(_WIDTH[depth])):
         name = draw(NAME)
         if name in out:
             continue
-        if depth < 3 and draw(NEST):
-            out[name] = draw(_tree(depth + 1))
+        if depth < 3 and draw(nest):
+            out[name] = draw(_tree(depth + 1, nest))
         else:
             out[name] = draw(CONTENT)
     return out
 
 
 TREE = _tree()
+TREE_DEEP = _tree(0, NEST_DEEP)  # chains of directories that hold only directories
 with warnings.catch_warnings():  # gen.trees tests its `content` argument for truth
     warnings.simplefilter("ignore")
     SMALL_TREE = gen.trees(max_files=3, max_depth=2, content=gen.small_contents())
@@ -318,6 +335,8 @@ def cases(draw):
         tree = {}
     elif sel < 4:
         tree = draw(SMALL_TREE)
+    elif sel < 9:
+        tree = draw(TREE_DEEP)
     else:
         tree = draw(TREE)
     form = draw(FORM)
@@ -352,6 +371,7 @@ def cases(draw):
         "old_hashes": draw(OLD_HASHES),
         "stores": [] if missing else draw(STORES),
         "collect": draw(st.booleans()),
+        "old_dirhash": draw(st.booleans()) if form == "lazy" else False,
     }
 
 
@@ -436,7 +456,7 @@ def make_target(model, dir_entries, lazy, odb, extra=()):
     return idx
 
 
-def build_old(root, state=None, root_entry=False, hashes=True):
+def build_old(root, state=None, root_entry=False, hashes=True, dirhash_keys=()):
     """The caller's view of the workspace: build_entries with hashes, or (hashes=False, first compare
     only) the public index.build.build(), which records no hashes - every file then compares as
     modified and is re-created, which must converge all the same. When the target has an entry for the
@@ -461,6 +481,19 @@ def build_old(root, state=None, root_entry=False, hashes=True):
         entry.key = ()
         idx.add(entry)
     for entry in build_entries(root, fs, compute_hash=True, state=state):
+        idx.add(entry)
+    # directory entries that carry the .dir hash of what is below them, as a caller that tracks the
+    # directory as one object has them (DVC: build_entry/build_entries, then build_tree per output)
+    from dvc_data.index.save import build_tree
+
+    for key in dirhash_keys:
+        entry = idx.get(key) if (key or root_entry) else None
+        if entry is None or not entry.meta or not entry.meta.isdir:
+            continue
+        meta, tree = build_tree(idx, key)
+        if not meta.nfiles:
+            continue
+        entry.meta, entry.hash_info, entry.loaded = meta, tree.hash_info, True
         idx.add(entry)
     return idx
 
@@ -520,7 +553,7 @@ def under(key, roots):
 # ------------------------------------------------------------------------------------------
 # oracle
 # ------------------------------------------------------------------------------------------
-def check_workspace(tag, root, want, affected=(), blocked=(), exact=True):
+def check_workspace(tag, root, want, affected=(), blocked=(), exact=True, optional_dirs=()):
     """Walk `root` and compare with the model `want`, ignoring everything at/below `affected` keys and
     (delete off) at/below `blocked` keys. exact=False: extra files/directories are not judged."""
     viols = []
@@ -540,7 +573,8 @@ def check_workspace(tag, root, want, affected=(), blocked=(), exact=True):
         elif k in want.execs and k not in xbits:
             viols.append(Viol(f"{tag}not-executable", f"isexec entry {_rel(k)} has no x bit"))
     for d in want.sorted_dirs():
-        if under(d, skip):
+        if under(d, skip) or d in optional_dirs:
+            # optional: a directory the index has no entry for exists because of what is below it
             continue
         if d not in dirs:
             viols.append(Viol(f"{tag}missing-dir", f"target directory {_rel(d)} does not exist"))
@@ -686,7 +720,11 @@ def run_case(case, ctx):  # noqa: C901, PLR0912, PLR0915
         try:
             old = None
             if not (case["old_none"] and not prior.files and not prior.dirs and not prior.links):
-                old = build_old(ws, state, root_entry=() in lazy, hashes=old_hashes)
+                old = build_old(ws, state, root_entry=() in lazy, hashes=old_hashes,
+                                dirhash_keys=lazy if case.get("old_dirhash") else ())
+                if case.get("old_dirhash") and old_hashes and any(
+                        old.get(n) is not None and old[n].hash_info for n in lazy if n or () in lazy):
+                    classes.append("old-dir-hashes")
             else:
                 classes.append("old=None")
             target = make_target(T, dir_entries, lazy, odb, extra)
@@ -696,49 +734,66 @@ def run_case(case, ctx):  # noqa: C901, PLR0912, PLR0915
                 target.onerror = lambda entry, exc: load_errors.append(entry.key)
                 classes.append("index-onerror-collector")
             reported = []
+
+            def tolerated_escape(exc):
+                """Errors escaping from apply() that lie outside the statement (everything else is judged):
+                * a source is unavailable: FileNotFoundError out of _create_files/_chmod_files, raised when
+                  the destination that could not be created is stat'ed again after the callback was called;
+                * delete off and a prior non-directory sits where the target needs a directory that has no
+                  entry of its own: NotADirectoryError / FileExistsError / FileNotFoundError out of
+                  _create_dirs/_create_files/_chmod_files - a loud failure, not a silent skip."""
+                frame = product_frame(exc)
+                func = frame[1] if frame else None
+                if in_the_way and isinstance(exc, (NotADirectoryError, FileExistsError, FileNotFoundError)):
+                    return func in ("_create_dirs", "_create_files", "_chmod_files")
+                if affected and isinstance(exc, FileNotFoundError):
+                    return func in ("_create_files", "_chmod_files")
+                return False
+
             diff = compare(old, target, delete=delete, relink=case["relink"])
             raised = None
             try:
                 apply(diff, ws, fs, update_meta=case["update_meta"], state=state, links=links_arg(),
                       onerror=lambda *a: reported.append(a))
-            except (FileNotFoundError, NotADirectoryError) as exc:
-                # Not judged: once a source is unavailable (or, delete off, a prior file occupies the
-                # place of a directory the index has no entry for) only the report through the callback
-                # is promised. apply() stats the destination of such an entry afterwards (update_meta /
-                # chmod of an isexec entry) and lets that error escape; the callback has been called by
-                # then, which is what is checked below. An error escaping from anywhere else is judged.
-                frame = product_frame(exc)
-                if not (affected or in_the_way) or frame is None or frame[1] not in ("_create_files",
-                                                                                     "_chmod_files"):
+            except OSError as exc:
+                if not tolerated_escape(exc):
                     raise
                 raised = exc
-                classes.append("apply-raised-after-report")
+                classes.append("apply-raised:blocked-path" if in_the_way else "apply-raised-after-report")
             reported_paths = {a[1] for a in reported if len(a) > 1}
+
+            def survival(tag, aff):
+                """delete off: nothing outside the target was removed or altered."""
+                out = []
+                if delete:
+                    return out
+                after_files, after_dirs, _ax = walk(ws)
+                for e in prior.sorted_dirs():
+                    if e in T.files or e in T.dirs or under(e, aff) or e in after_dirs:
+                        continue
+                    if any(e[:i] in T.files for i in range(1, len(e))):
+                        continue
+                    out.append(Viol(f"{tag}delete-off:removed-outside-target",
+                                    f"prior directory {_rel(e)} is outside the target but was removed"))
+                for k in prior.sorted_files():
+                    if k in T.files or k in T.dirs or under(k, aff):
+                        continue
+                    if any(k[:i] in T.files for i in range(1, len(k))):
+                        continue  # lies below a target file: a conflict, not "outside the target"
+                    if after_files.get(k) != prior.files[k]:
+                        out.append(Viol(f"{tag}delete-off:removed-outside-target",
+                                        f"prior file {_rel(k)} is outside the target but was "
+                                        f"{'removed' if k not in after_files else 'altered'}"))
+                return out
 
             def judge(tag, aff, cb):
                 """Workspace oracle + delete-off survival + second compare, ignoring what lies at/below
                 the keys in `aff` (entries whose source is unavailable in this round)."""
-                out = check_workspace(tag, ws, T, affected=aff, blocked=blocked, exact=delete)
+                out = check_workspace(tag, ws, T, affected=aff, blocked=blocked, exact=delete,
+                                      optional_dirs=implicit_dirs)
                 if cb and out and not aff:
                     out[0].msg += f"; error callback saw {[(a[1], repr(a[2])) for a in cb][:2]}"
-                if not delete:
-                    after_files, after_dirs, _ax = walk(ws)
-                    for e in prior.sorted_dirs():
-                        if e in T.files or e in T.dirs or under(e, aff) or e in after_dirs:
-                            continue
-                        if any(e[:i] in T.files for i in range(1, len(e))):
-                            continue
-                        out.append(Viol(f"{tag}delete-off:removed-outside-target",
-                                        f"prior directory {_rel(e)} is outside the target but was removed"))
-                    for k in prior.sorted_files():
-                        if k in T.files or k in T.dirs or under(k, aff):
-                            continue
-                        if any(k[:i] in T.files for i in range(1, len(k))):
-                            continue  # lies below a target file: a conflict, not "outside the target"
-                        if after_files.get(k) != prior.files[k]:
-                            out.append(Viol(f"{tag}delete-off:removed-outside-target",
-                                            f"prior file {_rel(k)} is outside the target but was "
-                                            f"{'removed' if k not in after_files else 'altered'}"))
+                out += survival(tag, aff)
                 # second compare: fresh old index with hashes, freshly constructed target
                 old2 = build_old(ws, state, root_entry=() in lazy)
                 target2 = make_target(T, dir_entries, lazy, odb, extra)
@@ -757,6 +812,8 @@ def run_case(case, ctx):  # noqa: C901, PLR0912, PLR0915
                 return out
 
             # ---- oracle: first round --------------------------------------------------------
+            if raised is not None and in_the_way:
+                viols += survival("", affected)  # after a loud failure only clause (2) is judged
             if raised is None:
                 viols += judge("", affected, reported)
                 now_files, now_dirs, _nx = walk(ws)
@@ -767,11 +824,19 @@ def run_case(case, ctx):  # noqa: C901, PLR0912, PLR0915
                         viols.append(Viol("failed-dir-created",
                                           f"{_rel(n)}: its .dir object is not in the cache, yet the "
                                           f"path was created in the workspace"))
-            for p in sorted(expect_blocked_reported - reported_paths):
+            # (when apply let a re-stat error escape, later storage groups were not processed at all)
+            placed = set()
+            if expect_blocked_reported and raised is None:
+                got_files, got_dirs, _gx = walk(ws)  # "not silently skipped": placed after all, or reported
+                placed = {_join(ws, k) for k in T.files if got_files.get(k) == T.files[k]}
+                placed |= {_join(ws, e) for e in got_dirs}
+            for p in sorted(expect_blocked_reported - reported_paths - placed) if raised is None else ():
                 viols.append(Viol("delete-off:file-in-the-way-unreported",
                                   f"{os.path.relpath(p, ws)}: a prior file occupies the place of its parent "
-                                  f"directory (delete off) and the error callback was not called for it"))
-            for p in sorted(expect_reported - reported_paths):
+                                  f"directory (delete off); it was neither placed nor reported to the "
+                                  f"error callback"))
+            # (after a loud failure over a blocked path apply stopped before it got to the files)
+            for p in sorted(expect_reported - reported_paths) if not (raised is not None and in_the_way) else ():
                 kind = "dir" if p in {_join(ws, n) for n in failed_dirs} else "file"
                 viols.append(Viol(f"unreported-missing-source:{kind}",
                                   f"{os.path.relpath(p, ws)}: its source is not in the cache but the "
@@ -785,9 +850,14 @@ def run_case(case, ctx):  # noqa: C901, PLR0912, PLR0915
                 reported2 = []
                 diff3 = compare(build_old(ws, state, root_entry=() in lazy), target, delete=delete,
                                 relink=case["relink"])
-                apply(diff3, ws, fs, update_meta=False, state=state, links=links_arg(),
-                      onerror=lambda *a: reported2.append(a))
-                viols += judge("retry:", [], reported2)
+                try:
+                    apply(diff3, ws, fs, update_meta=False, state=state, links=links_arg(),
+                          onerror=lambda *a: reported2.append(a))
+                    viols += judge("retry:", [], reported2)
+                except OSError as exc:
+                    if not in_the_way or not tolerated_escape(exc):  # a file still in the way
+                        raise
+                    viols += survival("retry:", [])
                 classes.append("retry-after-restore")
                 if failed_dirs:
                     classes.append("retry-after-restore:failed-dir")
